@@ -53,7 +53,9 @@ def run(ctx):
                 npost += 1
             ctx.ob("lenproof", "%s:%s" % (sp, r["key"]), r["status"] == "proved", r["what"], r["where"], cfg)
         ctx.floor("lenproof", n, 120, cfg)
-        ctx.floor("lenproof", npost, 19, cfg)
+        # 19 on the pinned tree; private helpers with a postcondition may be inlined by a refactoring (the 14 public
+        # entry points and trait methods cannot)
+        ctx.floor("lenproof", npost, 14, cfg)
         # error variants of length-guarded exits
         k = 0
         for name in ("handshakestate::HandshakeState::_write_message", "handshakestate::HandshakeState::_read_message",
